@@ -280,8 +280,11 @@ def c_slice_get(eng, st, fr, f, args, site):
         ns.add_fact(e.sub(s), eng)
         ns.add_fact(ln.sub(e), eng)
         if kind == "index":
-            if vw.get("arr") is not None and s.is_const():
-                val = Ref(vw["ref"].loc, vw["ref"].path + (("i", s),), False)
+            if vw.get("arr") is not None and s.is_const() and vw["off"].is_const() and 0 <= vw["off"].c + s.c < len(vw["arr"].elems):
+                # an element of an array whose elements are known (a constant table): the element itself
+                loc = "obj:elem#%d" % eng._hv()
+                ns.locs[loc] = vw["arr"].elems[vw["off"].c + s.c]
+                val = Ref(loc, (), False)
             else:
                 loc = "obj:elem#%d" % eng._hv()
                 ns.locs[loc] = vw["elem"] if vw["elem"] is not None else byte_read(eng, vw["base"], vw["off"].add(s))
@@ -963,6 +966,97 @@ def c_iter_next_generic(eng, st, fr, f, args, site):
     if isinstance(it, Cont) and it.kind in ("iter:val", "iter:ref", "iter:arr"):
         return c_iter_next(eng, st, fr, f, args, site)
     return None
+
+
+@contract(r"^(core|std)::slice::<impl \[T\]>::(binary_search_by_key|binary_search)$")
+def c_binary_search(eng, st, fr, f, args, site):
+    """`table.binary_search_by_key(&key, |e| k(e))` over a slice whose elements are known (a constant table): analysed as
+    the decision list it is equivalent to on a table sorted by unique keys — Ok(i) under `k(e_i) == key` for each i in
+    turn, Err otherwise (the insertion point is not tracked).  Sortedness of constant string / integer keys is checked;
+    an unsorted table is left undecided (its result is unspecified)."""
+    from engine.contracts_std import call_closure
+    vw = view(eng, st, args[0])
+    rt = ret_ty(eng, site)
+    if vw is None or rt is None or vw.get("arr") is None or not vw["off"].is_const() or not vw["len"].is_const():
+        return None
+    elems = list(vw["arr"].elems)[vw["off"].c: vw["off"].c + vw["len"].c]
+    if len(elems) > 64:
+        return None
+    by_key = f["path"].endswith("binary_search_by_key")
+    target = args[1]
+    tv = deref(eng, st, target) if isinstance(target, Ref) else target
+    keys = []
+    cur = st
+    for e in elems:
+        if by_key:
+            rs = call_closure(eng, cur, fr, args[2], [_elem_ref(eng, cur, e)], site)
+            if rs is None or len(rs) != 1:
+                return None
+            cur, k = rs[0]
+        else:
+            k = e
+        keys.append(k)
+
+    def const_of(v):
+        v = force(eng, cur, v)
+        if isinstance(v, Int) and v.lin.is_const():
+            return v.lin.c
+        vv = view(eng, cur, v)
+        if vv and isinstance(vv["base"], str) and vv["base"].startswith("const:") and vv["off"].is_const() and vv["len"].is_const():
+            d = eng.const_bytes.get(vv["base"])
+            if d is not None:
+                return d[vv["off"].c: vv["off"].c + vv["len"].c]
+        return None
+
+    cks = [const_of(k) for k in keys]
+    if any(c is None for c in cks) or any(not (a < b) for a, b in zip(cks, cks[1:])):
+        return None  # keys not constants, or the table is not strictly sorted
+    tc = const_of(tv)
+    et = variant_payload_ty(eng, rt, 1)
+    outs = []
+    live = cur
+    for i, (k, ck) in enumerate(zip(keys, cks)):
+        if tc is not None:
+            if tc == ck:
+                return outs + [(live, Enum(rt, ((0, (int_const(i, 64, False),)),), "res"))]
+            continue
+        cond = None
+        if eng.on_call is not None:
+            r = eng.on_call(eng, live, fr, {"path": "core::cmp::PartialEq::eq", "resolved": None, "name": "eq", "trait": "core::cmp::PartialEq", "self_ty": None, "args": []}, [k, tv], site)
+            if r and len(r) == 1 and isinstance(r[0][1], Bool):
+                cond = r[0][1].cond
+        if cond is None:
+            if isinstance(ck, bytes):
+                cond = ("sym", "eq:%s" % ck.decode("latin1"))
+            else:
+                tvi = force(eng, live, tv)
+                if not isinstance(tvi, Int):
+                    return None
+                cond = ("cmp", "Eq", tvi.lin, Lin.const(ck))
+        hit = live.fork()
+        try:
+            ki = eng.assume(hit, cond, True)
+            if ki is not None and ki not in hit.key:
+                hit.key = hit.key + (ki,)
+            outs.append((hit, Enum(rt, ((0, (int_const(i, 64, False),)),), "res")))
+        except Dead:
+            pass
+        miss = live.fork()
+        try:
+            ki = eng.assume(miss, cond, False)
+            if ki is not None and ki not in miss.key:
+                miss.key = miss.key + (ki,)
+            live = miss
+        except Dead:
+            return outs
+    outs.append((live, Enum(rt, ((1, (Top(et, "insert_at#%d" % eng._hv()),)),), "res")))
+    return outs
+
+
+def _elem_ref(eng, st, e):
+    loc = "obj:bsarg#%d" % eng._hv()
+    st.locs[loc] = e
+    return Ref(loc, (), False)
 
 
 def _fresh_elem(eng, elem, k):
